@@ -21,7 +21,7 @@ TableOfEvent(e) ==
      THEN [k \in keys |-> [l |-> {a \in Base : C(st, Pred(k, a)) \in keys},
                            r |-> {b \in Base : C(st, Succ(k, b)) \in keys},
                            d |-> tab[Idx(k)].d]]
-     ELSE [k \in keys |-> [l |-> ToSet(tab[Idx(k)].l), r |-> ToSet(tab[Idx(k)].r), d |-> tab[Idx(k)].d]]
+     ELSE [k \in keys |-> [l |-> SetOf(tab[Idx(k)].l), r |-> SetOf(tab[Idx(k)].r), d |-> tab[Idx(k)].d]]
 
 CompressFails(e) ==
   IF e.panic # "" THEN {"PANIC"}
@@ -31,7 +31,7 @@ CompressFails(e) ==
 \* ---------------------------------------------------------------- recompress (C09)
 RecompressFails(e) ==
   LET K == e.K  st == e.st  g == e.g
-      cens == {c + 1 : c \in ToSet(e.censor)}
+      cens == {c + 1 : c \in SetOf(e.censor)}
       valid == (1..Len(g)) \ cens
   IN IF ~WellFormedGraph(K, st, g) THEN {}                       \* not a valid graph: outside the quantifier
      ELSE IF e.panic # "" THEN {"PANIC"}
@@ -105,28 +105,28 @@ PruneFails(e) ==
   IF e.panic # "" THEN {"PANIC"} ELSE
   LET st == e.st  bef == e.before  NB == Len(bef)
       keys == {bef[i].k : i \in 1..NB}
-      all == ToSet(e.all)
+      all == SetOf(e.all)
       SameShape(aft) == Len(aft) = NB /\ \A i \in 1..NB : aft[i].k = bef[i].k /\ aft[i].d = bef[i].d
       P1 == /\ SameShape(e.plain)
             /\ \A i \in 1..NB : LET k == bef[i].k IN
-                 /\ ToSet(e.plain[i].l) = {a \in ToSet(bef[i].l) : C(st, Pred(k, a)) \in keys}
-                 /\ ToSet(e.plain[i].r) = {b \in ToSet(bef[i].r) : C(st, Succ(k, b)) \in keys}
+                 /\ SetOf(e.plain[i].l) = {a \in SetOf(bef[i].l) : C(st, Pred(k, a)) \in keys}
+                 /\ SetOf(e.plain[i].r) = {b \in SetOf(bef[i].r) : C(st, Succ(k, b)) \in keys}
       Cens(x) == x \notin keys /\ x \in all
       P2 == /\ SameShape(e.sharded)
             /\ \A i \in 1..NB : LET k == bef[i].k IN
-                 /\ ToSet(e.sharded[i].l) = {a \in ToSet(bef[i].l) : ~Cens(C(st, Pred(k, a)))}
-                 /\ ToSet(e.sharded[i].r) = {b \in ToSet(bef[i].r) : ~Cens(C(st, Succ(k, b)))}
+                 /\ SetOf(e.sharded[i].l) = {a \in SetOf(bef[i].l) : ~Cens(C(st, Pred(k, a)))}
+                 /\ SetOf(e.sharded[i].r) = {b \in SetOf(bef[i].r) : ~Cens(C(st, Succ(k, b)))}
   IN {c \in {"P1", "P2"} : ~(CASE c = "P1" -> P1 [] c = "P2" -> P2)}
 
 FixextsFails(e) ==
   IF e.panic # "" THEN {"PANIC"} ELSE
   LET K == e.K  st == e.st  g == e.g  NN == Len(g)
-      valid == {v + 1 : v \in ToSet(e.valid)}
+      valid == {v + 1 : v \in SetOf(e.valid)}
       OKT(t) == ~e.use_valid \/ t[1] \in valid
       Keep(n, d) == {b \in BasesOf(g[n], d) : \E t \in Lookup(K, st, g, ExtK(TermK(K, g[n], d), d, b), d) : OKT(t)}
       P3 == /\ Len(e.after) = NN
             /\ \A n \in 1..NN : /\ e.after[n].s = g[n].s /\ e.after[n].d = g[n].d
-                                /\ ToSet(e.after[n].l) = Keep(n, "L") /\ ToSet(e.after[n].r) = Keep(n, "R")
+                                /\ SetOf(e.after[n].l) = Keep(n, "L") /\ SetOf(e.after[n].r) = Keep(n, "R")
   IN IF P3 THEN {} ELSE {"P3"}
 
 \* ---------------------------------------------------------------- machine
